@@ -63,6 +63,9 @@ Inductive expr :=
   | EVar (x : name)
   | EProbe (id : N) (e : expr)            (* opaque p_id(e): logs (id,[value of e]), returns that value *)
   | ECallP (id : N) (rs : list val)       (* opaque f_id(): logs (id,[]), returns the tuple rs *)
+  | ECallA (id : N) (args : list expr) (rs : list val)
+                                          (* opaque f_id(args...): arguments evaluated left to right, the callee logs
+                                             (id, the argument values it received), returns the tuple rs *)
   | EBin (op : binop) (a b : expr)
   | EAnd (a b : expr)
   | EAppend (s x : expr)
@@ -258,6 +261,10 @@ Section Conv.
       | EVar x => match lookup en x with Some v => (RVal [v], en, tr) | None => (RStuck, en, tr) end
       | EProbe id a => ev1 a en tr (fun v en' tr' => (RVal [v], en', tr' ++ [Ev id [v]]))
       | ECallP id rs => (RVal rs, en, tr ++ [Ev id []])
+      | ECallA id args rs => match evs args en tr with
+                             | (RVal vs, en', tr') => (RVal rs, en', tr' ++ [Ev id vs])
+                             | x => x
+                             end
       | EBin op a b =>
         ev1 a en tr (fun x en1 tr1 => ev1 b en1 tr1 (fun y en2 tr2 =>
           match bin_eval op x y with RVal v => (RVal [v], en2, tr2) | r => (cast r, en2, tr2) end))
